@@ -393,6 +393,7 @@ def _strip_type(lines: list[str]) -> str:
 
 
 def _split_assumptions(out: str, n: int) -> list[list[str]]:
+    """Parse the output of a sequence of `Print Assumptions` commands (axiom types may continue on further lines)."""
     blocks: list[list[str]] = []
     cur: list[str] | None = None
     for line in out.splitlines():
@@ -406,8 +407,8 @@ def _split_assumptions(out: str, n: int) -> list[list[str]]:
                 blocks.append(cur)
             cur = []
         elif cur is not None:
-            m = re.match(r'^([A-Za-z0-9_.\']+)\s*:', line)
-            if m:
+            m = re.match(r'^([A-Za-z_][A-Za-z0-9_.\']*)\s*(:|$)', line)
+            if m and not line.startswith(' '):
                 cur.append(m.group(1))
     if cur is not None:
         blocks.append(cur)
